@@ -101,6 +101,7 @@ pub struct Driver<Ix: IndexType> {
     pub ixname: String,
     pub nobs: u64,
     pub poisoned: bool,
+    pub saved: Option<Box<Obj<Ix>>>,
 }
 
 /// projection through the public API: node slots up to node_bound, edge slots up to edge_bound
@@ -242,7 +243,7 @@ macro_rules! observe {
 
 impl<Ix: SIx> Driver<Ix> {
     pub fn new(ixname: &str) -> Self {
-        Driver { obj: Obj::GD(Graph::with_capacity(0, 0)), serial: 1, ixname: ixname.to_string(), nobs: 0, poisoned: false }
+        Driver { obj: Obj::GD(Graph::with_capacity(0, 0)), serial: 1, ixname: ixname.to_string(), nobs: 0, poisoned: false, saved: None }
     }
     fn fresh(&mut self) -> i32 {
         self.serial += 1;
@@ -630,6 +631,22 @@ impl<Ix: SIx> Driver<Ix> {
                 }
                 log.ev(o);
                 return;
+            }
+            "save" | "restore" => {
+                fn cl<Ix: IndexType>(o: &Obj<Ix>) -> Obj<Ix> {
+                    match o {
+                        Obj::GD(g) => Obj::GD(g.clone()), Obj::GU(g) => Obj::GU(g.clone()),
+                        Obj::SD(g) => Obj::SD(g.clone()), Obj::SU(g) => Obj::SU(g.clone()),
+                        Obj::AGD(g) => Obj::AGD(g.clone()), Obj::ASD(g) => Obj::ASD(g.clone()),
+                    }
+                }
+                if name == "save" {
+                    self.saved = Some(Box::new(cl(&self.obj)));
+                } else {
+                    self.obj = cl(self.saved.as_ref().expect("restore without save"));
+                    want_st = true;
+                }
+                rs("ok")
             }
             "serde" => {
                 // C17: serialize, optionally mutate the stream, deserialize (possibly into the other
@@ -1276,6 +1293,58 @@ pub fn gen_serde(seed: u64, segments: usize, len: usize, log: &mut Log) {
             2 => serde_segment::<u16>("u16", stable, directed, len, &mut rng, log),
             3 => serde_segment::<Ix4>("ix4", stable, directed, len, &mut rng, log),   // streams at the index limit
             _ => serde_segment::<Ix7>("ix7", stable, directed, len, &mut rng, log),
+        }
+    }
+}
+
+/// spec -> code: replay TLC-generated histories (one per abstract state of GraphCover / StableCover) and
+/// fork every call of the alphabet from the reached state.
+pub fn cover_replay(scripts: &[Value], stride: usize, offset: usize, log: &mut Log, seed: u64) {
+    let mut rng = Rng::new(seed);
+    for (k, hist) in scripts.iter().enumerate() {
+        if k % stride != offset % stride {
+            continue;
+        }
+        let ops = hist.as_array().unwrap();
+        let mut d: Driver<Ix3> = Driver::new("ix3");
+        for op in ops {
+            let mut o = op.clone();
+            if o["op"] == "reset" { o["ctor"] = json!("with_capacity"); }
+            d.apply(&o, log, &mut rng);
+        }
+        d.apply(&json!({"op":"obs"}), log, &mut rng);
+        d.apply(&json!({"op":"save"}), log, &mut rng);
+        let (_, _, nb, eb) = d.counts();
+        let stable = d.is_stable();
+        let mut fan: Vec<Value> = vec![json!({"op":"try_add_node"}), json!({"op":"add_node"}), json!({"op":"reverse"}),
+            json!({"op":"clear_edges"}), json!({"op":"clear"}), json!({"op":"map"}), json!({"op":"filter_map","m":2,"r":0}),
+            json!({"op":"filter_map","m":2,"r":1}), json!({"op":"retain","kind":"node","m":2,"r":0}), json!({"op":"retain","kind":"edge","m":2,"r":1}),
+            json!({"op":"noeffect","which":"clone_from"}), json!({"op":"serde","fmt":"json","to":"same","mut":"none"}),
+            json!({"op":"serde","fmt":"bincode","to": if stable {"graph"} else {"stable"},"mut":"none"}),
+            json!({"op": if stable {"to_graph"} else {"to_stable"}})];
+        if !stable { fan.push(json!({"op":"into_edge_type","d":true})); fan.push(json!({"op":"into_edge_type","d":false})); }
+        for a in 0..=nb.min(3) {
+            fan.push(json!({"op":"remove_node","a":a}));
+            fan.push(json!({"op":"set_node_weight","a":a,"via":"node_weight_mut"}));
+            for b in 0..=nb.min(3) {
+                for w in ["add_edge", "try_add_edge", "update_edge", "try_update_edge"] { fan.push(json!({"op":w,"a":a,"b":b})); }
+                fan.push(json!({"op":"index_twice_nn","a":a,"b":b}));
+            }
+            for e in 0..=eb.min(3) { fan.push(json!({"op":"index_twice_ne","a":a,"e":e})); }
+        }
+        for e in 0..=eb.min(3) {
+            fan.push(json!({"op":"remove_edge","e":e}));
+            fan.push(json!({"op":"set_edge_weight","e":e,"via":"index_mut"}));
+        }
+        if nb >= 1 && nb <= 2 && d.counts().1 < 3 { let w = d.fresh(); fan.push(json!({"op":"extend_with_edges","edges":[[0, nb, w]]})); }
+        // a completely full graph does not round-trip through serde (recorded finding of C17): not forked here
+        if nb >= 3 || eb >= 3 { fan.retain(|o| o["op"] != "serde"); }
+        for (j, op) in fan.iter().enumerate() {
+            d.apply(&json!({"op":"restore"}), log, &mut rng);
+            let mut o = op.clone();
+            o["want_st"] = json!(true);
+            d.apply(&o, log, &mut rng);
+            if j % 3 == 0 { d.apply(&json!({"op":"obs"}), log, &mut rng); }
         }
     }
 }
